@@ -681,7 +681,7 @@ class Interp(object):
             else:
                 raise AnalysisError("missing argument %s calling %s" % (pname, fi.qualname))
         if a.vararg:
-            env[a.vararg.arg] = list(pos[len(params):])
+            env[a.vararg.arg] = tuple(pos[len(params):])
         for kw, d in zip(a.kwonlyargs, a.kw_defaults):
             if kw.arg in kwargs:
                 env[kw.arg] = kwargs.pop(kw.arg)
@@ -1392,6 +1392,8 @@ class Frame(object):
             return out
         if isinstance(l, tuple) and isinstance(r, tuple):
             return l + r
+        if isinstance(l, tuple) and isinstance(r, AList) or isinstance(l, AList) and isinstance(r, tuple):
+            raise RaiseSig(AExc("TypeError", ["can only concatenate tuple (not list) to tuple"], {}))
         if isinstance(l, ASeq) and isinstance(r, ASeq):
             if l.kind != r.kind and "list" in (l.kind, r.kind):
                 self.unsupported(node, "list + sequence")
@@ -1531,6 +1533,14 @@ class Frame(object):
                 sub2.assign(g.target, (k0, v0))
                 out.adds.append((sub2.expr(e.key), sub2.expr(e.value)))
             out.removes = list(src.removes)
+            return out
+        if isinstance(it, ACollection) or (isinstance(it, AList) and not it.generic):
+            elems = [it.make_elem()] if isinstance(it, ACollection) else list(it.items)
+            out = AMap("comp:L%d" % e.lineno)
+            for el in elems:
+                sub = Frame(I, self.fi, dict(self.env), module=self.m)
+                sub.assign(g.target, el)
+                out.adds.append((sub.expr(e.key), sub.expr(e.value)))
             return out
         if isinstance(it, dict):
             self.unsupported(e, "dict comprehension over a literal")
@@ -1780,8 +1790,7 @@ def lib_getattr(fr: Frame, base, a: str, node):
     if isinstance(base, AEnzymeV):
         if a in ("is_3overhang", "is_5overhang", "is_blunt", "is_unknown", "catalyse"):
             return BoundMethod("enzyme", base, a)
-        if a in ("site", "ovhgseq", "size", "fst5", "fst3", "ovhg", "elucidate", "search", "compsite"):
-            return Term(a, Term("cutter"))
+        return Term(a, Term("cutter"))
     if isinstance(base, AStruct):
         if a in base.fields:
             return base.fields[a]
@@ -1874,6 +1883,8 @@ def lib_call_method(fr: Frame, bm: BoundMethod, args, kwargs, node):
             if t.op in ("upper", "lower", "casefold"):
                 return Term(name, t.args[0])
             return Term(name, t)
+        if name == "search" and t.op == "search":
+            return Term("sites", *[_t(a) for a in args])
         if name in ("append", "extend", "insert", "remove", "pop", "setdefault", "add", "discard", "update", "sort"):
             I.path.effects.append(("mutate", t, name, args))
             if name == "setdefault":
@@ -2176,6 +2187,20 @@ def lib_call(fr: Frame, dotted: str, args, kwargs, node):
         return AStruct("SeqFeature", **f)
     if dotted == "re.compile" and args and isinstance(args[0], str):
         return AStruct("regex", pattern=args[0])
+    if dotted == "copy.copy" and len(args) == 1:
+        v = args[0]
+        if isinstance(v, dict):
+            return dict(v)
+        if isinstance(v, ARec):
+            out = ARec(v.circular, v.pieces, v.ident, deriv=("shallow-copy", v.deriv), ctor=v.ctor)
+            out.attrs = dict(v.attrs)
+            out.added_features = v.added_features  # the feature list is shared with the original
+            return out
+        if isinstance(v, AList):
+            out = AList(list(v.items), I.loop_depth)
+            out.generic = v.generic
+            return out
+        return Term("shallow-copy", _t(v))
     if dotted == "copy.deepcopy":
         v = args[0]
         if isinstance(v, dict):
